@@ -1173,7 +1173,8 @@ def run(ctx) -> None:
     try:
         for name, (shape, _tr, full) in VARIANTS.items():
             run_table(ctx, os.path.join(ctx.scratch, f"v-{name}"), shape, f"variant:{name}", variant=name,
-                      reduced=(ctx.tier == "quick" or not full), file_limit=None if full else 2)
+                      reduced=(ctx.tier == "quick" or not full),
+                      file_limit=(2 if not full else 5 if ctx.tier == "quick" else None))
     except RuntimeError as e:
         ctx.proof_problems.append("model evaluation failed (variants): " + str(e)[:800])
     oracle_filtered(ctx, os.path.join(ctx.scratch, "tf"))
